@@ -95,6 +95,8 @@ func c05(r *core.Report, p *core.Prog, thorough bool) {
 	r.Rule("C05.primitive", "transferAmount: insufficiency guard, checked MinusCoin/AddCoin with errors returned, both sides persisted (same obligations as C01.3)")
 	r.Rule("C05.all-or-nothing", "updateState: every queued transfer's failure fails the transaction; single commit after the transfer loops (same obligations as C01.4)")
 	r.Rule("C05.supply-guard", "updateState rejects txn.Value > config.MaxTokenSupply before creating the transaction context")
+	r.Rule("C05.read-your-writes", "StateContext: a successful SetClientState replaces (or drops) the per-transaction cached copy of that client on every path, and GetClientState serves the cache only under a hit for the requested id — the insufficiency guard reads balances through this cache")
+	c05ReadYourWrites(r, p)
 	r.Rule("C05.raw-arith", "raw +,-,* on currency.Coin in chaincore/chain (state.go functions), chaincore/state and chaincore/tokenpool is a comparison/log operand only, guarded, or unreachable")
 	ta := p.Func(fnTransfer)
 	us := p.Func(fnUpdateState)
@@ -172,4 +174,92 @@ func c05(r *core.Report, p *core.Prog, thorough bool) {
 	if len(ops) == 0 {
 		r.Pass("C05.raw-arith", "none", "", "no raw Coin arithmetic in scope")
 	}
+}
+
+// c05ReadYourWrites: the per-transaction client-state cache is write-through.
+func c05ReadYourWrites(r *core.Report, p *core.Prog) {
+	recv := "(*" + pkgCState + ".StateContext)."
+	set, get := p.Func(recv+"SetClientState"), p.Func(recv+"GetClientState")
+	cache := p.Field(pkgCState, "StateContext", "clientStates")
+	if set == nil || get == nil || cache == nil {
+		r.Unresolved("C05.read-your-writes", "StateContext.SetClientState/GetClientState/clientStates")
+		return
+	}
+	// does `fn` refresh/drop cache[key] on every path, key being its parameter #ki and the value deriving from parameter #vi?
+	var always func(fn *ssa.Function, ki, vi int, depth int) (bool, string)
+	refreshes := func(fn *ssa.Function, in ssa.Instruction, key, val ssa.Value, depth int) bool {
+		switch x := in.(type) {
+		case *ssa.MapUpdate:
+			if f, _ := loadOfAnyField(x.Map); f != cache || x.Key != key {
+				return false
+			}
+			fs, leaves := FlowLoadsDeep(x.Value)
+			_ = fs
+			for _, l := range leaves {
+				if l == val {
+					return true
+				}
+			}
+			return false
+		case *ssa.Call:
+			if core.CalleeName(x.Common()) == "builtin.delete" {
+				f, _ := loadOfAnyField(x.Call.Args[0])
+				return f == cache && x.Call.Args[1] == key
+			}
+			cal := x.Common().StaticCallee()
+			if cal == nil || depth > 2 || cal.Blocks == nil || cal.Pkg == nil || cal.Pkg.Pkg.Path() != pkgCState {
+				return false
+			}
+			ki, vi := -1, -1
+			for i, a := range x.Call.Args {
+				if a == key {
+					ki = i
+				}
+				if a == val {
+					vi = i
+				}
+			}
+			if ki < 0 || vi < 0 {
+				return false
+			}
+			ok, _ := always(cal, ki, vi, depth+1)
+			return ok
+		}
+		return false
+	}
+	always = func(fn *ssa.Function, ki, vi int, depth int) (bool, string) {
+		key, val := ssa.Value(fn.Params[ki]), ssa.Value(fn.Params[vi])
+		for _, ret := range core.Returns(fn) {
+			if ret.Block() == fn.Recover {
+				continue
+			}
+			if fn.Signature.Results().Len() > 0 && core.ClassifyReturn(ret) < 0 {
+				continue // failing exit
+			}
+			path, _, found := core.PathQuery{Fn: fn, Barrier: func(in ssa.Instruction) bool { return refreshes(fn, in, key, val, depth) }, EdgeOK: core.FeasibleEdge,
+				Target: func(in ssa.Instruction) bool { return in == ssa.Instruction(ret) }}.Find()
+			if found {
+				return false, p.PathString(path)
+			}
+		}
+		return true, ""
+	}
+	ok, why := always(set, 1, 2, 0)
+	r.Check(ok, "C05.read-your-writes", "SetClientState:cache-refreshed", p.Pos(set.Pos()), "after the trie insert the cached copy of the client is replaced on every success path; a path that keeps the old copy: "+why)
+	// GetClientState: a cached value is returned only under the comma-ok hit of a lookup with the requested id
+	n := 0
+	for _, b := range get.Blocks {
+		for _, in := range b.Instrs {
+			lk, ok := in.(*ssa.Lookup)
+			if !ok {
+				continue
+			}
+			if f, _ := loadOfAnyField(lk.X); f != cache {
+				continue
+			}
+			n++
+			r.Check(lk.Index == ssa.Value(get.Params[1]) && lk.CommaOk, "C05.read-your-writes", fmt.Sprintf("GetClientState:cache-lookup#%d", n), p.Pos(lk.Pos()), "the cached copy served is the one stored under the requested id, under a hit")
+		}
+	}
+	r.Floor("C05.read-your-writes", "GetClientState returns served from the cache", n, 1)
 }
